@@ -3,6 +3,7 @@
 package mimetype
 
 import (
+	"bytes"
 	"encoding/hex"
 	"fmt"
 	"strconv"
@@ -172,6 +173,29 @@ func (g *vfGen) genC17() {
 		append([]byte("\x00\x01\x00\x00Standard Jet"), g.bytes(40)...),
 		append([]byte("\x00\x01\x00\x00S"), g.bytes(40)...),
 		append([]byte("\x00\x01\x00\x00\x00\x0c\x00\x80\x00\x03\x00\x40"), g.bytes(40)...))
+	// signatures that sit at an offset, present only in part (the first k bytes right, then something else), with
+	// every pair of limits around them: a header cut inside the signature is not yet an identification
+	for _, os := range []struct {
+		off int
+		sig string
+	}{{20, "GPAT"}, {20, "GIMP"}, {60, "BOOKMOBI"}, {4, "Standard Jet DB"}, {4, "Standard ACE DB"}, {257, "ustar"}, {4, "ftyp"}, {8, "WEBP"}, {8, "AVI LIST"}, {36, "acsp"}} {
+		for k := 1; k < len(os.sig); k++ {
+			for _, fill := range []byte{0, ' ', 'a'} {
+				h := bytes.Repeat([]byte{fill}, os.off)
+				if os.off == 4 && os.sig[0] == 'S' {
+					copy(h, "\x00\x01\x00\x00")
+				}
+				h = append(append(h, os.sig[:k]...), "XYZWxyzw0123456789"...)
+				for l1 := os.off; l1 <= os.off+len(os.sig)+1; l1++ {
+					for _, l2 := range []int{l1 + 1, l1 + 2, os.off + len(os.sig), len(h), 0} {
+						if l1 > 0 && (l2 == 0 || l2 > l1) {
+							g.emit(vfOp("mono", h, l1, l2))
+						}
+					}
+				}
+			}
+		}
+	}
 	for _, h := range heads {
 		if len(h) < 3 {
 			continue
